@@ -29,7 +29,7 @@
    implementation. *)
 From Coq Require Import List ZArith Bool Arith Lia.
 Import ListNotations.
-From QV Require Import Model.C01 Proofs.C01 Proofs.C01_pred Proofs.C01_add Proofs.C01_dia.
+From QV Require Import Model.C01 Proofs.C01 Proofs.C01_pred Proofs.C01_add Proofs.C01_dia Proofs.C01_reshape.
 
 Section Props.
 Variable C : Type.
@@ -337,6 +337,72 @@ Proof.
   split; [|vm_compute; reflexivity]. split; simpl.
   - repeat constructor; simpl; intuition lia.
   - intros d [<-|[<-|[]]]; reflexivity.
+Qed.
+
+(* ------------------------------------------- reshape and column stacking *)
+(* reshape keeps the entry at every linear (row-major) position i*nc + j,
+   whatever the relation between old and new column counts (narrower, wider
+   multiple, wider non-multiple, coprime) and for CSR rows stored in any
+   order (the kernel sorts them first; the model does too) *)
+Theorem C01_reshape_csr : forall (C : Type) (c0 : C) (m out : csr C) nr' nc' i j,
+  wf_csr C m -> reshape_csr C m nr' nc' = Some out ->
+  i < s_nr C m -> j < s_nc C m ->
+  den_csr C c0 out ((i * s_nc C m + j) / nc') ((i * s_nc C m + j) mod nc') = den_csr C c0 m i j.
+Proof. exact reshape_csr_den. Qed.
+Print Assumptions C01_reshape_csr.
+
+Theorem C01_reshape_csr_shape_guard : forall (C : Type) (m : csr C) nr' nc',
+  nr' * nc' <> s_nr C m * s_nc C m -> reshape_csr C m nr' nc' = None.
+Proof. exact reshape_csr_guard. Qed.
+Print Assumptions C01_reshape_csr_shape_guard.
+
+Theorem C01_reshape_dense : forall (C : Type) (c0 : C) (d out : dense C) nr' nc' i j,
+  reshape_dense C c0 d nr' nc' = Some out ->
+  i < d_nr C d -> j < d_nc C d ->
+  den_dense C c0 out ((i * d_nc C d + j) / nc') ((i * d_nc C d + j) mod nc') = den_dense C c0 d i j.
+Proof. exact reshape_dense_den. Qed.
+Print Assumptions C01_reshape_dense.
+
+(* reshape through either format gives the same matrix *)
+Theorem C01_reshape_formats_agree :
+  forall (C : Type) (c0 : C) (m out : csr C) (dout : dense C) f nr' nc' i j,
+  wf_csr C m -> reshape_csr C m nr' nc' = Some out ->
+  reshape_dense C c0 (dense_from_csr C c0 f m) nr' nc' = Some dout ->
+  i < s_nr C m -> j < s_nc C m ->
+  let loc := i * s_nc C m + j in
+  den_csr C c0 out (loc / nc') (loc mod nc') = den_dense C c0 dout (loc / nc') (loc mod nc').
+Proof.
+  intros C c0 m out dout f nr' nc' i j W H1 H2 Hi Hj loc. unfold loc.
+  rewrite (reshape_csr_den C c0 m out nr' nc' i j W H1 Hi Hj).
+  pose proof (reshape_dense_den C c0 (dense_from_csr C c0 f m) dout nr' nc' i j H2 Hi Hj) as D.
+  simpl in D. rewrite D. symmetry. apply dense_from_csr_den. exact W.
+Qed.
+Print Assumptions C01_reshape_formats_agree.
+
+(* column stacking: entry (i, j) goes to row j*nr + i of the single column *)
+Theorem C01_column_stack : forall (C : Type) (c0 : C),
+  (forall (m out : csr C) i j, wf_csr C m -> column_stack_csr C m = Some out ->
+     i < s_nr C m -> j < s_nc C m ->
+     den_csr C c0 out (j * s_nr C m + i) 0 = den_csr C c0 m i j) /\
+  (forall (d : dense C) i j, i < d_nr C d -> j < d_nc C d ->
+     den_dense C c0 (column_stack_dense C c0 d) (j * d_nr C d + i) 0 = den_dense C c0 d i j).
+Proof. intros C c0. split; [apply column_stack_csr_den|apply column_stack_dense_den]. Qed.
+Print Assumptions C01_column_stack.
+
+(* non-vacuity: the 3x4 -> 2x6 reshape (wider, not a multiple) of a CSR whose
+   middle row is stored in descending column order and straddles the output
+   row boundary *)
+Example C01_nonvacuous_reshape :
+  let m := G_csr_of_raw 3 4 [0; 2; 4; 6] [2; 0; 3; 0; 3; 1]
+             [(2, 0); (1, 0); (4, 0); (3, 0); (6, 0); (5, 0)]%Z in
+  wf_csr G m /\
+  vO vC (G_reshape_csr m 2 6) =
+    Some (2, 6, [0; 3; 6], [0; 2; 4; 1; 3; 5],
+          [(1, 0); (2, 0); (3, 0); (4, 0); (5, 0); (6, 0)]%Z).
+Proof.
+  split; [|vm_compute; reflexivity]. split; [reflexivity|].
+  intros row [<-|[<-|[<-|[]]]]; (split; [repeat constructor; simpl; intuition lia
+    | intros p Hp; simpl in Hp; intuition (subst; simpl; lia)]).
 Qed.
 
 (* ----------------------------------------------------------- dispatcher *)
